@@ -38,10 +38,15 @@ func FuzzFrontEnd(f *testing.F) {
 // nativeFuzz runs the native fuzzer for a bounded time in a subprocess (the
 // test binary itself) and turns a crasher into a replayable case.
 func nativeFuzz(run *ev.Run, corp []string) (string, *Case) {
-	self, err := os.Executable()
-	if err != nil {
-		run.Inconclusive("cannot locate the test binary for native fuzzing")
-		return "", nil
+	// the instrumented copy built by ./check (coverage counters); this binary itself as a fallback (blind mutation)
+	self := os.Getenv("VERIF_FUZZBIN")
+	run.Extra["native_fuzz_coverage_guided"] = self != ""
+	if self == "" {
+		var err error
+		if self, err = os.Executable(); err != nil {
+			run.Inconclusive("cannot locate the test binary for native fuzzing")
+			return "", nil
+		}
 	}
 	work := filepath.Join(os.Getenv("VERIF_WORK"), "fuzz")
 	os.MkdirAll(filepath.Join(work, "cache"), 0o755)
